@@ -171,6 +171,14 @@ def check(case):
     with warnings.catch_warnings():
         warnings.simplefilter("ignore")
         try:
+            # another instance was fitted (and used) just before, on data with the same number of samples and
+            # the same padded size whose NARROWER side has one more real column: nothing of it may leak
+            px, py = (dx + 1, dy) if dx + 1 < dy else ((dx, dy + 1) if dy + 1 < dx else (dx, dy))
+            pol = OrthogonalRegression(use_orthogonal_projector=(mode == "projector"))
+            Xp0 = np.cos(np.arange(n * px, dtype=float).reshape(n, px) * 0.7) * 3.0 + 1.0
+            Yp0 = np.sin(np.arange(n * py, dtype=float).reshape(n, py) * 1.3) * 2.0 - 0.5
+            pol.fit(Xp0, Yp0)
+            pol.predict(Xp0)
             model.fit(X.copy(), Y.copy())
             pred = np.asarray(model.predict(X.copy()), float)
             W = np.asarray(model.coef_, float).T  # the map Omega: prediction = X_(padded) @ W
